@@ -278,3 +278,75 @@ Lemma unauthenticated_no_events_lemma s c ip :
   snd (lower s (TcpOpen c ip)) = [] /\
   (forall cn, alookup N.eqb c (tcp s) = Some cn -> c_key cn = None -> snd (lower s (TcpClose c)) = []).
 Proof. split; [reflexivity|]. intros cn L K. cbn. rewrite L, K. reflexivity. Qed.
+
+(* --- noninterference: client IPs matter only through distinctness and location (C20) --- *)
+Section Rename.
+  Variable rho : N -> N.
+  Hypothesis rho_inj : forall a b, rho a = rho b -> a = b.
+
+  Definition rk (k : ipkey) : ipkey := (rho (fst k), snd k).
+  Definition rev (e : ev) : ev :=
+    match e with Start k => Start (rk k) | Stop k => Stop (rk k) | Tick dt => Tick dt | Collect => Collect end.
+  Definition ract (l : list (ipkey * client)) := map (fun kc => (rk (fst kc), snd kc)) l.
+  Definition rlog (l : list (ipkey * Z)) := map (fun kz => (rk (fst kz), snd kz)) l.
+  Definition rtt (s : tt) : tt := {| act := ract (act s); log := rlog (log s) |}.
+
+  Lemma rk_eqb a b : ipkey_eqb (rk a) (rk b) = ipkey_eqb a b.
+  Proof.
+    destruct (ipkey_eqb a b) eqn:H.
+    - apply E in H. subst. apply (eqb_refl ipkey_eqb E).
+    - destruct (ipkey_eqb (rk a) (rk b)) eqn:H2; [|reflexivity]. apply E in H2.
+      destruct a as [a1 a2], b as [b1 b2]. unfold rk in H2. cbn in H2. inversion H2 as [[H3 H4]].
+      apply rho_inj in H3. subst. rewrite (eqb_refl ipkey_eqb E) in H. discriminate.
+  Qed.
+  Lemma lk_ract k l : lk (rk k) (ract l) = lk k l.
+  Proof. unfold ract. induction l as [|[k' c] r IH]; cbn [map alookup fst snd]; [reflexivity|]. rewrite rk_eqb, IH. reflexivity. Qed.
+  Lemma update_ract k c l : aupdate ipkey_eqb (rk k) c (ract l) = ract (aupdate ipkey_eqb k c l).
+  Proof.
+    unfold aupdate, ract. rewrite !map_map. apply map_ext. intros [k' c']. cbn [fst snd].
+    rewrite rk_eqb. destruct (ipkey_eqb k k'); reflexivity.
+  Qed.
+  Lemma remove_ract k l : aremove ipkey_eqb (rk k) (ract l) = ract (aremove ipkey_eqb k l).
+  Proof.
+    unfold ract, aremove. induction l as [|[k' c'] r IH]; cbn [map filter fst snd]; [reflexivity|]. rewrite rk_eqb.
+    destruct (ipkey_eqb k k'); cbn [negb map fst snd]; [exact IH|]. rewrite <- IH. reflexivity.
+  Qed.
+
+  Lemma step_rename s now e :
+    step (rtt s, now) (rev e) = (rtt (fst (step (s, now) e)), snd (step (s, now) e)).
+  Proof.
+    destruct e as [k|k|dt|]; cbn [rev step fst snd].
+    - f_equal. unfold tt_start, rtt. cbn [act log]. rewrite lk_ract.
+      destruct (lk k (act s)); cbn [act log].
+      + rewrite update_ract. reflexivity.
+      + unfold ract. rewrite map_app. reflexivity.
+    - f_equal. unfold tt_stop, rtt. cbn [act log]. rewrite lk_ract.
+      destruct (lk k (act s)) as [c|]; [|reflexivity].
+      destruct (cnt c - 1 <=? 0); cbn [act log].
+      + rewrite remove_ract. unfold rlog. rewrite map_app. reflexivity.
+      + rewrite update_ract. reflexivity.
+    - reflexivity.
+    - f_equal. unfold tt_collect, rtt, ract, rlog. cbn [act log]. rewrite map_app, !map_map. reflexivity.
+  Qed.
+
+  Lemma run_rename h : run (map rev h) = (rtt (fst (run h)), snd (run h)).
+  Proof.
+    unfold run. change (tt_init, 0) with (rtt tt_init, 0) at 1.
+    generalize tt_init 0. induction h as [|e r IH]; intros s now; cbn [map fold_left]; [reflexivity|].
+    rewrite step_rename. destruct (step (s, now) e) as [s1 now1]. cbn [fst snd]. apply IH.
+  Qed.
+
+  Lemma sum_where_rlog (p q : ipkey -> bool) l :
+    (forall k, p (rk k) = q k) -> sum_where p (rlog l) = sum_where q l.
+  Proof. intros H. unfold rlog. induction l as [|[k z] r IH]; cbn [map sum_where fst snd]; [reflexivity|]. rewrite H, IH. reflexivity. Qed.
+
+  Lemma noninterference_lemma (locf : N -> N) h :
+    (forall ip, locf (rho ip) = locf ip) ->
+    (forall key, reported_key (fst (run (map rev h))) key = reported_key (fst (run h)) key) /\
+    (forall loc, reported_loc locf (fst (run (map rev h))) loc = reported_loc locf (fst (run h)) loc).
+  Proof.
+    intros Hl. rewrite run_rename. cbn [fst]. split.
+    - intros key. unfold reported_key, rtt. cbn [log]. apply sum_where_rlog. reflexivity.
+    - intros loc. unfold reported_loc, rtt. cbn [log]. apply sum_where_rlog. intros k. cbn. rewrite Hl. reflexivity.
+  Qed.
+End Rename.
